@@ -570,6 +570,9 @@ func (database *ChainDatabase) GetConfirms(hash common.Hash) ([]types.SignData, 
 }
 
 func (database *ChainDatabase) LoadLatestBlock() (*types.Block, error) {
+	database.RW.RLock()
+	defer database.RW.RUnlock()
+
 	if database.LastConfirm.Block == nil {
 		return nil, ErrBlockNotExist
 	} else {
@@ -649,6 +652,9 @@ func (database *ChainDatabase) GetTrieDatabase() *TrieDatabase {
 }
 
 func (database *ChainDatabase) GetActDatabase(hash common.Hash) (*AccountTrieDB, error) {
+	database.RW.RLock()
+	defer database.RW.RUnlock()
+
 	if (hash == common.Hash{}) {
 		return NewAccountTrieDB(NewEmptyDatabase(), database.Beansdb), nil
 	}
@@ -772,6 +778,9 @@ func (database *ChainDatabase) GetAssetID(id common.Hash) (common.Address, error
 
 func (database *ChainDatabase) IterateUnConfirms(fn func(*types.Block)) {
 	verifhook.Yield("store.IterateUnConfirms:before-walk")
+	database.RW.RLock()
+	defer database.RW.RUnlock()
+
 	database.LastConfirm.Walk(func(block *CBlock) {
 		fn(block.Block)
 	}, nil)
